@@ -128,6 +128,8 @@ type Reopened = Result<(Vec<u8>, Option<u64>), String>;
 static CLAIM: AtomicU64 = AtomicU64::new(u64::MAX);
 /// last maximal run (start, len) of the values a run-length subject yielded; len 0 = none
 static TAIL: [AtomicU64; 2] = [AtomicU64::new(0), AtomicU64::new(0)];
+/// a regeneration scenario a continuation ran on the side (see IoMmap::regen): one `regen` event
+static REGEN: Mutex<Option<Value>> = Mutex::new(None);
 
 /// What a CONTINUATION observed: the undamaged image of a sync point is opened (in some open mode /
 /// configuration), used further (appends only: push / put / write), closed and opened again.
@@ -495,7 +497,9 @@ impl<T: Elem> Subject for MV<T> {
                 added += 1;
             }
         }
-        let items: Vec<T> = (0..rng.range(1, 40)).map(|_| T::gen(rng)).collect();
+        // created over an existing file: the second generation stays shorter than the first one
+        let many = if mode == "create" { 2 } else { 40 };
+        let items: Vec<T> = (0..rng.range(1, many)).map(|_| T::gen(rng)).collect();
         if v.extend(items.clone()).is_ok() {
             added += items.len();
         }
@@ -1040,11 +1044,14 @@ impl Subject for IoMmap {
         self.read(&dir.join("stream.bin"))
     }
     fn modes(&self) -> Vec<&'static str> {
-        vec!["append"]
+        vec!["append", "regen"]
     }
     /// open the synced file for writing again, append at its end, flush, read back, reopen
     fn resume(&self, dir: &Path, mode: &str, rng: &mut Rng) -> Result<Resumed, String> {
         let path = dir.join("stream.bin");
+        if mode == "regen" {
+            *REGEN.lock().unwrap() = Some(self.regen(dir, rng));
+        }
         let c0 = self.read(&path)?.0;
         let len0 = c0.len();
         let mut added = 0usize;
@@ -1087,6 +1094,79 @@ impl Subject for IoMmap {
 }
 
 impl IoMmap {
+    /// A file is CREATED OVER AN EXISTING ONE: generation 1 is a longer file full of 0xAA, generation 2
+    /// is created at the same path with a smaller initial size, writes little (seeks leave gaps, the
+    /// final truncate() is optional) and is read back through the reader of this variant.  The event
+    /// lists what generation 2 was asked to do; TLC computes what the file must hold.
+    fn regen(&self, dir: &Path, rng: &mut Rng) -> Value {
+        let path = dir.join("regen.bin");
+        let n1 = rng.range(300, 5000) as usize;
+        let mut writes: Vec<Value> = vec![];
+        let (api, cap, truncated, pos);
+        if self.0.starts_with("mmo") {
+            api = "mmo";
+            if let Ok(mut o) = MemoryMappedOutput::create(&path, 16) {
+                let _ = o.write_slice(&vec![0xAAu8; n1]);
+                let _ = o.truncate();
+                let _ = o.flush();
+            }
+            let c = rng.range(24, 160) as usize;
+            cap = c;
+            let mut tr = false;
+            let mut p = 0usize;
+            if let Ok(mut o) = MemoryMappedOutput::create(&path, c) {
+                for _ in 0..rng.range(1, 4) {
+                    // seek somewhere (possibly backwards, possibly leaving a gap), write a little, never beyond the capacity
+                    let at = rng.below(c as u64 - 8) as usize;
+                    if o.seek(at).is_err() {
+                        continue;
+                    }
+                    let n = rng.range(1, (c - at).min(9) as u64) as usize;
+                    let d: Vec<u8> = rng.bytes(n).into_iter().map(|b| b | 1).collect();
+                    if o.write_slice(&d).is_ok() {
+                        writes.push(json!({"off": at, "data": bytes_json(&d)}));
+                    }
+                }
+                if rng.chance(1, 2) {
+                    tr = o.truncate().is_ok();
+                }
+                let _ = o.flush();
+                p = o.position();
+            }
+            truncated = tr;
+            pos = p;
+        } else {
+            api = "fdo";
+            if let Ok(mut o) = zipora::io::to_file(&path) {
+                let _ = o.write_bytes(&vec![0xAAu8; n1]);
+                let _ = DataOutput::flush(&mut o);
+                let _ = o.sync_all();
+            }
+            let mut p = 0usize;
+            if let Ok(mut o) = zipora::io::to_file(&path) {
+                for _ in 0..rng.range(0, 3) {
+                    let n = rng.range(1, 12) as usize;
+                    let d: Vec<u8> = rng.bytes(n).into_iter().map(|b| b | 1).collect();
+                    if o.write_bytes(&d).is_ok() {
+                        writes.push(json!({"off": p, "data": bytes_json(&d)}));
+                        p += n;
+                    }
+                }
+                let _ = DataOutput::flush(&mut o);
+                let _ = o.sync_all();
+            }
+            // a sequential writer: the file ends where the writer stopped
+            cap = p;
+            truncated = true;
+            pos = p;
+        }
+        let got = self.read(&path);
+        let _ = fs::remove_file(&path);
+        json!({"api": api, "gen1": n1, "cap": cap, "truncated": truncated, "pos": pos, "writes": writes,
+            "open": if got.is_ok() { "ok" } else { "err" },
+            "got": bytes_json(&got.as_ref().map(|x| x.0.clone()).unwrap_or_default()),
+            "msg": got.err().unwrap_or_default()})
+    }
     fn read(&self, p: &Path) -> Reopened {
         match self.0 {
             "mmo" => mmi_read_all(p),
@@ -1193,7 +1273,9 @@ impl Subject for DzDict {
         // generations of the same length: a rewrite then changes blocks, not the layout
         let tlen = rng.range(300, 1100) as usize;
         let min_pat = 3 + rng.below(2) as usize;
-        for _gen in 0..3 {
+        for gen in 0..3 {
+            // the first generation is the longest: later ones are saved over a longer file
+            let tlen = if gen == 0 { tlen * 2 } else { tlen };
             let mut train = Vec::new();
             while train.len() < tlen {
                 let w = rng.below(words.len() as u64) as usize;
@@ -1547,10 +1629,11 @@ fn mode_child(a: &Args) {
             let modes = subj.modes();
             let mode = modes[k % modes.len()];
             let mut rng = Rng::new(spec["seed"].as_u64().unwrap_or(1)).derive(&format!("resume#{k}"));
+            *REGEN.lock().unwrap() = None;
             let r = guard(|| subj.resume(&img_dir, mode, &mut rng));
             CUR_START_MS.store(0, Ordering::SeqCst);
             let zero = json!({"len": 0, "h": [0, 0]});
-            let line = match r {
+            let mut line = match r {
                 Ok(Ok(x)) => json!({"i": i, "outcome": "resume", "open": "ok", "mode": x.mode, "writable": x.writable,
                     "has_ids": x.has_ids, "c0": digest(&x.c0), "ids0": ids_json(&x.ids0), "new_ids": ids_json(&x.new_ids),
                     "len0": x.len0, "len1": x.len1, "added": x.added, "old0": digest(&x.old0), "old1": digest(&x.old1),
@@ -1560,6 +1643,9 @@ fn mode_child(a: &Args) {
                 Ok(Err(msg)) => json!({"i": i, "outcome": "resume", "open": "err", "mode": mode, "msg": msg}),
                 Err(msg) => json!({"i": i, "outcome": "resume", "open": "panic", "mode": mode, "msg": msg}),
             };
+            if let Some(g) = REGEN.lock().unwrap().take() {
+                line["regen"] = g;
+            }
             append_line(&res, &line);
             continue;
         }
@@ -1775,6 +1861,12 @@ fn mode_images(a: &Args) {
                     "len0": g("len0", json!(0)), "len1": g("len1", json!(0)), "added": g("added", json!(0)),
                     "old0": g("old0", zero.clone()), "old1": g("old1", zero.clone()), "live": g("live", zero.clone()),
                     "again_open": g("again_open", json!("err")), "again": g("again", zero.clone()), "msg": g("msg", json!(""))}));
+                if let Some(g) = r.get("regen") {
+                    let mut e = g.clone();
+                    e["op"] = json!("regen");
+                    tr.ev(e);
+                    *sum.entry(format!("regen/{}", g["api"].as_str().unwrap_or("?"))).or_default() += 1;
+                }
                 *sum.entry(format!("resume/{}/{}", r["mode"].as_str().unwrap_or("?"), open)).or_default() += 1;
                 *sum.entry("images".into()).or_default() += 1;
                 nontrivial.insert((name.to_string(), *run, it.k, it.f.clone(), it.kind.clone(), it.j, it.len));
